@@ -37,32 +37,39 @@ def _chars(v) -> set[str]:
 
 
 def _alphabet(run: Run, I: Interp) -> frozenset[str]:
-    """R1: least fixed point of the characters the successor function can emit."""
-    # seeds: the default handed out by get_next and the 2->3 extension constant are
-    # discovered by interpretation (default of .get(), return "000")
-    A: set[str] = set()
+    """R1: least fixed point of the characters the successor function can emit.  The successor is evaluated on concrete two-character
+    strings built from characters already known ('s0'+c and c+c for every known c: every position's successor, the carry and the
+    2 -> 3 extension all occur among them), so the analysis does not depend on how the per-character step is written."""
     seeds = _seed_ids(run, I)
+    A: set[str] = set()
     for s in seeds:
         A |= set(s)
-    for _ in range(200):
-        new = set(A)
-        for n in (2, 3):
-            arg = SeqStr(tuple(CharSet(frozenset(A)) if len(A) > 1 else next(iter(A)) for _ in range(n)))
-            if all(isinstance(p, str) for p in arg.parts):
-                arg = "".join(arg.parts)  # type: ignore[assignment]
-            for v, st in I.run_function(F_NEXT, [arg]):
-                if st.imprecise:
-                    run.undecided("C07.R1", "_get_next_id", "interpreter left the supported subset: " + "; ".join(st.imprecise[:3]))
-                    return frozenset(A)
-                if isinstance(v, Raised):
-                    continue
-                if isinstance(v, Unknown):
-                    run.undecided("C07.R1", "_get_next_id", f"unknown result {v}")
-                    return frozenset(A)
-                new |= _chars(v)
-        if new == A:
+    if not A:
+        return frozenset()
+    s0 = seeds[0][0]
+    done: set[str] = set()
+    for _ in range(400):
+        todo = sorted(A - done)
+        if not todo:
             break
-        A = new
+        for c in todo:
+            done.add(c)
+            for arg in (s0 + c, c + c, c + s0):
+                try:
+                    res = I.run_function(F_NEXT, [arg])
+                except Exception as e:
+                    run.undecided("C07.R1", "_get_next_id", f"interpreter left the supported subset: {type(e).__name__}: {str(e)[:80]}")
+                    return frozenset(A)
+                for v, st in res:
+                    if st.imprecise:
+                        run.undecided("C07.R1", "_get_next_id", "interpreter left the supported subset: " + "; ".join(st.imprecise[:3]))
+                        return frozenset(A)
+                    if isinstance(v, Raised):
+                        continue
+                    if not isinstance(v, str):
+                        run.undecided("C07.R1", "_get_next_id", f"unknown result {v!r} for {arg!r}")
+                        return frozenset(A)
+                    A |= set(v)
     else:
         run.undecided("C07.R1", "_get_next_id", "alphabet fixpoint did not converge")
     return frozenset(A)
@@ -277,51 +284,7 @@ def check(run: Run) -> None:
     # ------------------------------------------------------------- R3
     eff = Effects(model)
     cls = model.cls(f"{ZM}.ZIDManager")
-    mod_funcs = [f for q, f in sorted(model.funcs.items()) if q.startswith(ZM + ".")]
-    writers = [f for f in mod_funcs if f.qualname != F_GET and any(e.kind == "FILE_WRITE" and e.target == "NEXTIDS" for _, e in eff.direct(f))]
-    in_get = [e for _, e in eff.direct(fi_get) if e.kind == "FILE_WRITE" and e.target == "NEXTIDS"]
-    run.check("C07.R3", "next_ids.json is written by the manager", bool(writers) or bool(in_get), "ZIDManager", "no NEXTIDS write", "nothing in the ZID manager writes next_ids.json", file=FILE, node=fi_get.node)
-    for fi_w in writers + ([fi_get] if in_get else []):
-        wparams = [a.arg for a in fi_w.params() if a.arg not in ("self", "cls")]
-        dumps = [c for c in ast.walk(fi_w.node) if isinstance(c, ast.Call) and ast.unparse(c.func) in ("json.dump", "json.dumps")]
-        ok_dump = False
-        for c in dumps:
-            a = c.args[0] if c.args else None
-            while isinstance(a, ast.Call) and ast.unparse(a.func) in ("dict", "sorted", "OrderedDict") and a.args:
-                a = a.args[0]
-            if isinstance(a, ast.Call) and isinstance(a.func, ast.Attribute) and a.func.attr == "items":
-                a = a.func.value
-            ok_dump = ok_dump or (isinstance(a, ast.Name) and (a.id in wparams or fi_w is fi_get))
-        run.check("C07.R3", f"{fi_w.name} persists the whole map it is given", ok_dump, fi_w.name, dumps[0] if dumps else "no dump",
-                  "the persisted map is not the map that was passed in (entries are filtered / rebuilt): counters of other dates are dropped and those dates restart at the first suffix, "
-                  "re-issuing ZIDs that are already in use", file=FILE, node=fi_w.node)
-    paths = enum_paths(fi_get.node)
-    n_ret = 0
-    for p in paths:
-        r = first_index(p, lambda n: isinstance(n, ast.Return))
-        if r < 0:
-            continue
-        n_ret += 1
-        a = first_index(p, lambda n: isinstance(n, ast.Assign) and isinstance(n.targets[0], ast.Subscript) and any(is_call_to("_get_next_id")(c) for c in ast.walk(n.value)))
-        tags = []
-        for i, e in enumerate(p.events[:r]):
-            if e[0] == "stmt":
-                for node, tag, via in eff.node_tags(fi_get, e[1]):
-                    if tag == "FILE_WRITE:NEXTIDS":
-                        tags.append(i)
-        ok = a >= 0 and any(i > a for i in tags)
-        run.check("C07.R3", "a NEXTIDS write of the successor precedes the return", ok, "ZIDManager.get_next",
-                  "return reached without persisting the successor",
-                  "a path of get_next returns a ZID without writing the advanced next-id map to disk first (the same ZID is handed out again after a restart)",
-                  file=FILE, node=fi_get.node, detail=dict(path=p.describe()))
-        if a >= 0:
-            stmt = p.events[a][1]
-            mapname = ast.unparse(stmt.targets[0].value)
-            wcalls = [node for e in p.events[a:r] if e[0] == "stmt" for node, tag, via in eff.node_tags(fi_get, e[1]) if tag == "FILE_WRITE:NEXTIDS" and isinstance(node, ast.Call) and via != "direct"]
-            same = any(ast.unparse(arg) == mapname for c in wcalls for arg in c.args)
-            run.check("C07.R3", "the map that is written is the one that was advanced", same or not wcalls, "ZIDManager.get_next", "writes a different map",
-                      f"get_next advances `{mapname}` but writes something else to disk", file=FILE, node=stmt)
-    run.floor("get_next return paths", n_ret, 1)
+    persistence_scenarios(run, model, "C07.R3", order)
     # the map comes from disk on every call: the property reads NEXTIDS, and any attribute its
     # decision depends on is never assigned outside __init__
     loaders = [m for m in cls.methods.values() if m.name != "__init__" and any(isinstance(n, ast.Call) and isinstance(n.func, ast.Attribute) and n.func.attr in ("read_text", "read_bytes", "load", "loads") for n in walk_no_nested(m.node))]
@@ -487,3 +450,99 @@ def _accepted_lengths(model: PyModel):
     if pats[0][1] != "fullmatch" and not pats[0][0].endswith("$"):
         return None
     return set(range(lo, min(hi, 64) + 1))
+
+
+def persistence_scenarios(run: Run, model: PyModel, rid: str, order=None) -> None:
+    """Abstract runs of ZIDManager.get_next over a virtual next_ids.json (nothing touches a disk): the ZID returned is the stored
+    suffix of that date (or the first suffix for a new date), and before it is returned the WHOLE map -- every other date's counter
+    included -- has been written back with that date advanced to the successor."""
+    written: list = []
+
+    def snapshot(st, v):
+        if isinstance(v, Ref):
+            h = st.obj(v)
+            if h.kind == "dict":
+                return {k: snapshot(st, x) for k, x in h.fields.items()}
+            if h.kind in ("list", "set"):
+                return [snapshot(st, x) for x in h.items]
+        return v
+
+    def make_probes(loaded):
+        def path_method(I2, recv, name, args, kwargs, st, node):
+            if name in ("exists", "is_file"):
+                return [(loaded is not None, st)]
+            if name in ("read_text", "read_bytes"):
+                return [(Opaque("filetext"), st)]
+            if name == "open":
+                return [(Opaque("handle"), st)]
+            if name in ("write_text", "write_bytes"):
+                st.trace.append(("write", args[0] if args else None))
+                return [(None, st)]
+            return None
+
+        def json_method(I2, recv, name, args, kwargs, st, node):
+            if name in ("loads", "load"):
+                return [(st.alloc(HObj("dict", fields=dict(loaded or {}))), st)]
+            if name == "dump":
+                st.trace.append(("write", snapshot(st, args[0])))
+                return [(None, st)]
+            if name == "dumps":
+                return [(Opaque("jsontext", repr(sorted(snapshot(st, args[0]).items())) if isinstance(snapshot(st, args[0]), dict) else "?"), st)]
+            return None
+
+        def date_method(I2, recv, name, args, kwargs, st, node):
+            if name == "strftime" and args and isinstance(args[0], str):
+                return [(args[0].replace("%Y", "2024").replace("%y", "24").replace("%m", "01").replace("%d", "02"), st)]
+            return None
+
+        def handle_method(I2, recv, name, args, kwargs, st, node):
+            if name == "write":
+                st.trace.append(("write", args[0] if args else None))
+            return [(None if name in ("write", "close", "__exit__") else recv, st)]
+
+        return {"method:path:NEXTIDS": path_method, "method:ext:json": json_method, "method:vday": date_method, "method:handle": handle_method}
+
+    fi_get = model.func(F_GET)
+    n = 0
+    for label, loaded, want_suffix in (("a date with a stored counter", {"991231": "0B", "200101": "0A", "240102": "0C"}, "0C"), ("a new date", {"991231": "0B", "200101": "0A"}, None), ("no next_ids.json yet", None, None)):
+        I2 = Interp(model, probes=make_probes(loaded))
+        st0 = State()
+        try:
+            res = I2.run_function(F_GET, [_manager_self(st0), Opaque("vday", "20240102")], st=st0)
+        except Exception as e:
+            run.undecided(rid, "ZIDManager.get_next", f"{label}: cannot interpret: {type(e).__name__}: {str(e)[:100]}")
+            continue
+        for v, st in res:
+            n += 1
+            if isinstance(v, Raised) or st.imprecise or not isinstance(v, str):
+                run.undecided(rid, "ZIDManager.get_next", f"{label}: " + (f"raises {v.exc}" if isinstance(v, Raised) else "; ".join(st.imprecise[:2]) or repr(v)))
+                continue
+            suffix = v.split("#", 1)[1] if "#" in v else None
+            if want_suffix is not None:
+                run.check(rid, f"{label}: the suffix handed out is the stored one", v == "240102#" + want_suffix, "ZIDManager.get_next", f"{label}: returned {v!r}",
+                          f"with next_ids.json = {loaded} get_next(2024-01-02) returns {v!r}, expected '240102#{want_suffix}'", file=FILE, node=fi_get.node)
+            else:
+                run.check(rid, f"{label}: the first suffix of a date is handed out", v.startswith("240102#") and suffix is not None and len(suffix) == 2 and (order is None or suffix == order[0] * 2), "ZIDManager.get_next",
+                          f"{label}: returned {v!r}", f"for {label} get_next returns {v!r}", file=FILE, node=fi_get.node)
+            maps = []
+            for t in st.trace:
+                if t[0] == "write":
+                    w = t[1]
+                    if isinstance(w, Opaque) and w.cls == "jsontext":
+                        try:
+                            w = dict(eval(w.tag, {"__builtins__": {}}))  # the repr of sorted items produced by the dumps probe above
+                        except Exception:
+                            w = None
+                    maps.append(w)
+            succ = None
+            if suffix:
+                r2 = Interp(model).run_function(F_NEXT, [suffix])
+                succ = r2[0][0] if len(r2) == 1 and isinstance(r2[0][0], str) else None
+            expect = dict(loaded or {})
+            expect["240102"] = succ
+            ok = bool(maps) and isinstance(maps[-1], dict) and maps[-1] == expect and succ is not None
+            run.check(rid, f"{label}: the whole map, advanced to the successor, is on disk before the ZID is returned", ok, "ZIDManager.get_next", f"{label}: wrote {maps[-1] if maps else None}",
+                      f"for {label} get_next returns {v!r} after writing {maps[-1] if maps else 'nothing'} to next_ids.json; expected {expect}: "
+                      + ("nothing is persisted, so the same ZID is handed out again after a restart" if not maps else
+                         "the counters of other dates are dropped / the date is not advanced, so ZIDs already in use are issued again"), file=FILE, node=fi_get.node)
+    run.floor("get_next scenarios", n, 3)
